@@ -4,7 +4,7 @@
 cd /verif
 ids=${@:-$(ls seeded | grep -E '^C[0-9]+-m[0-9]+$')}
 for id in $ids; do
-  d=seeded/$id
+  d=/verif/seeded/$id
   prop=${id%%-*}
   patch=$d/patch.diff
   [ -f $d/patch_rebased.diff ] && patch=$d/patch_rebased.diff
